@@ -4,7 +4,7 @@
    spec_run / spec_answer / informativeb / carriers (Model/C18.v) are loop-free and do not look at the mode flags. *)
 From Coq Require Import ZArith List Bool.
 Import ListNotations.
-From SCMO Require Import Lib.Val Gen.GenAlleles Model.C18 Proofs.C18_s Proofs.C18_a Proofs.C18_b Proofs.C18_c Proofs.C18_d Proofs.C18_e Proofs.C18_f Proofs.C18.
+From SCMO Require Import Lib.Val Gen.GenAlleles Model.C18 Model.C18x Proofs.C18_s Proofs.C18_a Proofs.C18_b Proofs.C18_c Proofs.C18_d Proofs.C18_e Proofs.C18_f Proofs.C18 Proofs.C18x_a Proofs.C18x_b Proofs.C18x_c.
 Open Scope Z_scope.
 
 (* ---- T: the machine (informative, cache_name, cacheable, line_of, parse_line, read_lines, self_lazy, step ...) is built from
@@ -234,3 +234,150 @@ Example C18_roundtrip_example :
   = [45;49;9;78;9;78;111;112;10; 57;9;65;9;83;49;44;83;50;10; 57;9;84;9;83;50;10; 49;57;9;67;9;83;49;10; 49;57;9;84;9;83;50;10].
 Proof. vm_compute. reflexivity. Qed.
 Print Assumptions C18_roundtrip_example.
+
+(* ==================================================================== REGION-RESTRICTED LOADING (region_start / region_end)
+   Model/C18x.v: every run carries a window w next to its settings.  v.fetch(c, start, stop) returns the records that
+   OVERLAP [start, stop) (vwin); read_cached keeps the lines the regenerated filters g_read_skip / g_read_stop keep; the
+   cache file name does not mention the window; unacceptable coordinates make the fetch raise (win_valid); the eager
+   load of all contigs ignores the window.  spec_run_x = the specification above (spec_run) on the records the run can
+   see (veff): all of them for the eager load of all contigs, those overlapping the window otherwise. *)
+
+(* ---- T: the two region tests of read_cached, as the current source writes them *)
+Theorem C18_window_source_shape :
+  (forall b p s, g_read_skip b p s = b && (p <? s)) /\ (forall b p e, g_read_stop b p e = b && (p >? e)).
+Proof. exact (conj read_skip_shape read_stop_shape). Qed.
+Print Assumptions C18_window_source_shape.
+
+(* ---- without a window the extended machine IS the machine of the theorems above *)
+Theorem C18_window_conservative : forall v h fs, vcf_ok_x v = true ->
+  run_history_x v fs (map lift h) = run_history v fs h.
+Proof. exact nowin_conservative. Qed.
+Print Assumptions C18_window_conservative.
+
+(* ---- along ANY history of runs sharing one cache directory - each run with its own settings, mode flags and window
+        (acceptable or not), any query sequence and contig order - every answer is the specification evaluated on the
+        records the run can see; hist_ok_x: two runs that go through the same cache file use the same window, and a run
+        through the cache is not asked about positions before its region_start *)
+Theorem C18_window_history_spec : forall v h, vcf_ok_x v = true -> hist_ok_x h = true ->
+  snd (run_history_x v [] h) = map (spec_run_x v) h.
+Proof. exact history_spec_x. Qed.
+Print Assumptions C18_window_history_spec.
+
+(* ---- a lookup INSIDE the window answers exactly what the whole VCF says ... *)
+Theorem C18_window_inside : forall v w cf q, (forall r, In r (v_recs v) -> pos_rec_ok r = true) ->
+  in_win w (query_pos q) = true -> spec_answer (vwin v w) cf q = spec_answer v cf q.
+Proof. exact spec_answer_inside. Qed.
+Print Assumptions C18_window_inside.
+
+(* ... so a history whose queries all lie inside their run's window answers the specification of the unrestricted VCF,
+   in every loading mode *)
+Theorem C18_window_inside_history : forall v h, vcf_ok_x v = true -> hist_ok_x h = true -> hist_inside h = true ->
+  snd (run_history_x v [] h) = map (spec_run v) (map unlift h).
+Proof. exact history_inside_spec. Qed.
+Print Assumptions C18_window_inside_history.
+
+Theorem C18_window_modes_equal : forall v h1 h2, vcf_ok_x v = true -> hist_ok_x h1 = true -> hist_ok_x h2 = true ->
+  hist_inside h1 = true -> hist_inside h2 = true -> Forall2 same_request_x h1 h2 ->
+  snd (run_history_x v [] h1) = snd (run_history_x v [] h2).
+Proof. exact modes_equal_x. Qed.
+Print Assumptions C18_window_modes_equal.
+
+(* the headline case needs no condition on file names: one setting and one window for all runs (any mode flags, any
+   chrom argument), queries inside the window *)
+Theorem C18_window_one_setting : forall v cf0 w0 h, vcf_ok_x v = true -> win_valid w0 = true ->
+  (forall run, In run h -> sem_eq (x_cf (fst run)) cf0 /\ x_win (fst run) = w0) ->
+  (forall run q, In run h -> In q (snd run) -> in_win w0 (query_pos q) = true) ->
+  snd (run_history_x v [] h) = map (spec_run v) (map unlift h).
+Proof. exact one_setting_one_window_spec. Qed.
+Print Assumptions C18_window_one_setting.
+
+(* ---- OUTSIDE the window, as the code defines it: a record decides a site iff the tabix iterator returned it - it
+        starts below region_end and its REF reaches beyond region_start ... *)
+Theorem C18_window_outside_record : forall v w cf c p r, spec_rec (vwin v w) cf c p = Some r ->
+  In r (v_recs v) /\ at_site c p r = true /\ informativeb cf r = true /\ p < win_hi w /\ win_lo w < p + Z.of_nat (length (r_ref r)).
+Proof. exact spec_rec_vwin_some. Qed.
+Print Assumptions C18_window_outside_record.
+
+(* ... nothing at or beyond region_end, nothing before region_start unless a longer REF reaches into the window ... *)
+Theorem C18_window_beyond_end : forall v w cf q, win_hi w <= query_pos q -> spec_answer (vwin v w) cf q = no_answer q.
+Proof. exact spec_answer_beyond_end. Qed.
+Print Assumptions C18_window_beyond_end.
+
+Theorem C18_window_before_start : forall v w cf q, query_pos q < win_lo w ->
+  (forall r, In r (v_recs v) -> r_chrom r = query_contig q -> (length (r_ref r) <= 1)%nat) ->
+  spec_answer (vwin v w) cf q = no_answer q.
+Proof. exact spec_answer_before_start. Qed.
+Print Assumptions C18_window_before_start.
+
+Theorem C18_window_outside_lazy : forall v run, is_lazy (x_cf (fst run)) = true -> win_valid (x_win (fst run)) = true ->
+  (forall q, In q (snd run) -> in_win (x_win (fst run)) (query_pos q) = false) ->
+  (forall r, In r (v_recs v) -> (length (r_ref r) <= 1)%nat) ->
+  spec_run_x v run = map no_answer (snd run).
+Proof. exact spec_run_x_outside. Qed.
+Print Assumptions C18_window_outside_lazy.
+
+(* ... while the eager load of all contigs answers as if there were no window *)
+Theorem C18_window_ignored_by_eager_all : forall v run, eager_all (x_cf (fst run)) = true ->
+  spec_run_x v run = spec_run v (unlift run).
+Proof. exact spec_run_x_eager_all. Qed.
+Print Assumptions C18_window_ignored_by_eager_all.
+
+(* ---- the cache file under a window: a run reads back exactly the entries at positions >= its region_start of a table
+        that holds nothing beyond its region_end (every table written under the same window is such a table) *)
+Theorem C18_window_cache_roundtrip : forall w ct c, ct_wf ct -> (forall p, amem Z.eqb ct p = true -> stopb w p = false) ->
+  let t := read_cached_x w (serialise ct) c [] in
+  (forall p b, look3 (getd seqb t c) p b = if skipb w p then None else look3 ct p b) /\
+  (forall p, amem Z.eqb (getd seqb t c) p = negb (skipb w p) && amem Z.eqb ct p) /\
+  (forall c', amem seqb t c' = true -> c' = c).
+Proof. exact read_cached_x_serialise. Qed.
+Print Assumptions C18_window_cache_roundtrip.
+
+(* ---- REFUTED on the unchanged tree (all four reproduced on the real class, fixes/C18-D36): the full-strength statement
+        "for every window the answers do not depend on the loading mode" fails in four ways.
+        FULL STATEMENT (not provable for the code that exists):
+          forall v h, vcf_ok_x v = true -> hist_ok (map unlift h) = true ->
+            forall i j, same_but_mode (nth i h) (nth j h) -> nth i answers = nth j answers   (and = spec inside the window) *)
+Theorem C18_window_cache_shared_refuted : exists v h,
+  vcf_ok_x v = true /\ hist_ok (map unlift h) = true /\ hist_inside h = true /\
+  (forall r1 r2, In r1 h -> In r2 h -> x_cf (fst r1) = x_cf (fst r2)) /\
+  snd (run_history_x v [] h) <> map (spec_run v) (map unlift h).
+Proof. exact window_cache_shared_refuted. Qed.
+Print Assumptions C18_window_cache_shared_refuted.
+
+Theorem C18_window_end_inclusive_refuted : exists v r0 r1 r2,
+  vcf_ok_x v = true /\ hist_ok (map unlift [r0; r1; r2]) = true /\ same_but_mode r1 r2 /\ win_valid (x_win (fst r1)) = true /\
+  nth 1 (snd (run_history_x v [] [r0; r1; r2])) [] <> nth 2 (snd (run_history_x v [] [r0; r1; r2])) [].
+Proof. exact window_end_inclusive_refuted. Qed.
+Print Assumptions C18_window_end_inclusive_refuted.
+
+Theorem C18_window_long_ref_refuted : exists v r1 r2,
+  vcf_ok_x v = true /\ hist_ok (map unlift [r1; r2]) = true /\ r1 = r2 /\ win_valid (x_win (fst r1)) = true /\
+  nth 0 (snd (run_history_x v [] [r1; r2])) [] <> nth 1 (snd (run_history_x v [] [r1; r2])) [].
+Proof. exact window_long_ref_refuted. Qed.
+Print Assumptions C18_window_long_ref_refuted.
+
+Theorem C18_window_eager_all_refuted : exists v r1 r2,
+  vcf_ok_x v = true /\ hist_ok_x [r1; r2] = true /\ same_but_mode r1 r2 /\ win_valid (x_win (fst r1)) = true /\
+  nth 0 (snd (run_history_x v [] [r1; r2])) [] <> nth 1 (snd (run_history_x v [] [r1; r2])) [].
+Proof. exact window_eager_all_refuted. Qed.
+Print Assumptions C18_window_eager_all_refuted.
+
+(* ---- non-vacuity: one setting, window [5,25), the same five lookups eagerly on chr1, lazily, through a fresh cache,
+        through the cache again and lazily through the cache: five times the answers of the VCF, one cache file *)
+Example C18_window_example :
+  vcf_ok_x w_vcf = true /\ hist_ok_x w_hist = true /\ hist_inside w_hist = true /\
+  snd (run_history_x w_vcf [] w_hist)
+  = repeat [ASome [w_S1]; ASome [w_S2]; ABool true; ASome [w_S2]; ABool false] 5 /\
+  length (fst (run_history_x w_vcf [] w_hist)) = 1%nat.
+Proof. exact window_example. Qed.
+Print Assumptions C18_window_example.
+
+Example C18_window_outside_example :
+  let w := {| w_start := Some 6; w_end := Some 20 |} in
+  option_map r_pos (spec_rec (vwin w_vcf w) (w_cfg true false) w_chr1 4) = Some 5 /\
+  spec_answer (vwin w_vcf w) (w_cfg true false) (QGet w_chr1 29 w_T) = ANone /\
+  spec_answer w_vcf (w_cfg true false) (QGet w_chr1 29 w_T) = ASome [w_S2] /\
+  map fst (getd seqb (read_cached_x {| w_start := Some 9; w_end := Some 20 |}
+                        (serialise (getd seqb (contig_table w_vcf (w_cfg true true) w_chr1) w_chr1)) w_chr1 []) w_chr1) = [9; 19].
+Proof. exact window_outside_example. Qed.
+Print Assumptions C18_window_outside_example.
